@@ -120,7 +120,8 @@ def main():
                         rec = json.load(f)
                     ctx.evaluations += 1
                     ctx.count("regression-replay")
-                    core.run_case(ctx, mod.CASES[rec["kind"]], rec["params"], rec["kind"])
+                    kind = rec.get("kind") or next(iter(mod.CASES))
+                    core.run_case(ctx, mod.CASES[kind], rec["params"], kind)
         # 2. generated search
         if a.tier == "thorough" and getattr(mod, "PARALLEL", True) and a.workers > 1:
             if hasattr(mod, "run_serial"):
@@ -152,7 +153,16 @@ def main():
         for k in core.open_findings(prop):
             fid = k["id"]
             if fid in demos:
-                still, what = demos[fid]()
+                try:
+                    still, what = demos[fid]()
+                except Exception as e:
+                    # the demonstrator exercises forsys on an input of the finding's class: if that now raises, the
+                    # finding cannot be re-demonstrated on this tree; it is neither a harness error nor (by itself) a
+                    # violation, and it must not hide the violations found by the search above
+                    stale.append(fid)
+                    print(f"NOTE: demonstrator of known finding {fid} raised {type(e).__name__}: {str(e)[:120]}",
+                          flush=True)
+                    continue
                 if still:
                     print(f"KNOWN-FINDING: property={prop} {fid} {k['what']} [{what}]", flush=True)
                 else:
